@@ -20,6 +20,34 @@ def replay(spec):
     problems = []
     tp = np.arange(0, 3, 0.25)
     kind = spec.get("kind")
+    if kind == "rng_history":
+        import bioscrape.random as R
+        seed = int(spec.get("seed", 12345))
+        draws = {"uniform": lambda: R.py_uniform_rv(), "normal": lambda: R.py_normal_rv(0.0, 1.0),
+                 "exponential": lambda: R.py_exponential_rv(2.0), "erlang": lambda: R.py_erlang_rv(2, 1.0),
+                 "gamma": lambda: R.py_gamma_rv(2.0, 1.0), "binomial": lambda: R.py_binom_rnd(3, 1.0 / 3),
+                 "rand_int": lambda: R.py_rand_int(), "approx_binomial": lambda: R.py_approx_binom_rnd(40, 0.3)}
+        histories = [[], ["normal"], ["uniform"], ["normal", "normal", "normal"], ["gamma"], ["approx_binomial"],
+                     ["binomial", "normal"], ["erlang", "exponential", "normal", "uniform", "rand_int"]]
+        ref = None
+        for h in histories:
+            py_seed_random(seed + 1)
+            for nm in h:
+                draws[nm]()
+            py_seed_random(seed)
+            got = {nm: [] for nm in draws}
+            for nm in sorted(draws):
+                py_seed_random(seed)
+                got[nm] = [draws[nm]() for _ in range(3)]
+            if ref is None:
+                ref = got
+            else:
+                for nm in sorted(draws):
+                    if got[nm] != ref[nm]:
+                        problems.append("seed %d then 3 x %s gives %s after the history %s, but %s with no history" % (seed, nm, got[nm], h, ref[nm]))
+            if problems:
+                break
+        return {"reproduced": bool(problems), "observed": problems[:3], "expected": "seeded draws independent of earlier draws"}
     if kind == "rng":
         from bioscrape.random import py_rand_int
         seed = int(spec["seed"])
